@@ -483,6 +483,7 @@ func runC06(t *testing.T, r *kit.Run) {
 		pinStr := fmt.Sprintf("[[kind=%d off=%d dmg=%d pos=%d procs=%d sseed=%d tseed=%d]] ", kindIdx[c.kind], c.off, c.dmg, c.pos, c.procs, int64(sched.Seed), int64(tseed))
 
 		cfg := scanCfg{data: f.Data, procs: c.procs, cut: -1, errAt: -1, sched: sched, tape: caseTape, maxObj: len(f.Objects()) + 20, trace: r.Replay}
+		cfg.header = kit.Mix(tseed)&1 == 1 // half of the cases ask for the header first: a failed Header() must not change what Scan/Err/Close do
 		var want []osm.Object
 		wantErr := true
 		var class, desc string
